@@ -28,21 +28,21 @@ def rules_for(prop):
     FILEIO = ("rxsci/io/file.py",)
     table = {
         "C01": per_subscription() + [mx.rule_ev1, ag.rule_ag1, ag.rule_ag2, ag.rule_ag3_small, ag.rule_ag3_map_filter, ag.rule_ag3_do_action, scan.rule_sc1, scan.rule_sd2, tm.rule_tm4, st.rule_st5, seq.rule_fw2],
-        "C02": st.RULES + [ms.rule_ms, tm.rule_tm5, scan.rule_sd1],
-        "C03": mx.RULES + [st.rule_st8, ms.rule_ms],
-        "C04": [named(grp.rule_eq1, files=("rxsci/operators/group_by.py", "rxsci/state/memory_store.py", "rxsci/state/store.py",
+        "C02": st.RULES + [ms.rule_tp1, ms.rule_ms, tm.rule_tm5, scan.rule_sd1, mx.rule_mx6],
+        "C03": mx.RULES + [st.rule_st8, ms.rule_ms, ms.rule_tp1],
+        "C04": [named(grp.rule_fwd1, heads=("group_by",)), named(grp.rule_eq1, files=("rxsci/operators/group_by.py", "rxsci/state/memory_store.py", "rxsci/state/store.py",
                                            "rxsci/operators/multiplex.py"), min_instances=1), named(grp.rule_fw1, heads=("group_by",)), grp.rule_fl1,
-                named(lv.rule_lv, only=("group_by_mux._group_by.on_subscribe",)), ms.rule_ms],
-        "C05": [grp.rule_roll, named(grp.rule_fw1, heads=("roll_count",)), scoped(st.rule_st2_3_4, ROLL), scoped(st.rule_st6, ROLL),
-                named(lv.rule_lv, only=("roll_mux._roll.subscribe", "roll_mux._roll_count.subscribe")), ms.rule_ms_states],
+                named(lv.rule_lv, only=("group_by_mux._group_by.on_subscribe",)), ms.ms_for_types("mapper", maps=True), ms.rule_tp1],
+        "C05": [named(grp.rule_fwd1, heads=("roll",)), grp.rule_roll, named(grp.rule_fw1, heads=("roll_count",)), scoped(st.rule_st2_3_4, ROLL), scoped(st.rule_st6, ROLL),
+                named(lv.rule_lv, only=("roll_mux._roll.subscribe", "roll_mux._roll_count.subscribe")), ms.ms_for_types("int", "uint")],
         "C08": per_subscription("rxsci/operators/tee_map.py") + [tm.rule_tm123, tm.rule_tm4, tm.rule_tm5, st.rule_st5, mx.rule_mx7],
-        "C09": scan.RULES + per_subscription("rxsci/operators/scan.py", "rxsci/operators/count.py", "rxsci/data/to_list.py", "rxsci/data/to_array.py") + [ms.rule_ms_states],
+        "C09": scan.RULES + per_subscription("rxsci/operators/scan.py", "rxsci/operators/count.py", "rxsci/data/to_list.py", "rxsci/data/to_array.py") + [ms.ms_for_types("int", "float", "bool", "obj")],
         "C10": seq.RULES + per_subscription(*SEQ) + [only_constructs(ag.rule_ag1, SEQ), only_constructs(ag.rule_ag2, SEQ), scan.rule_sc1, named(grp.rule_eq1, files=("rxsci/operators/distinct.py", "rxsci/operators/distinct_until_changed.py",
                                                        "rxsci/operators/first.py", "rxsci/operators/take.py", "rxsci/operators/last.py",
                                                        "rxsci/data/lag.py", "rxsci/data/pad.py", "rxsci/operators/start_with.py",
                                                        "rxsci/data/batch.py"), min_instances=1)],
         "C11": [io.rule_framing, pr.rule_pr1, pr.rule_pr2, grp.rule_pr3, seq.rule_dp6, st.rule_st1],
-        "C12": [scan.rule_sd1, num.rule_nm1, ag.rule_ag4, named(scan.rule_pu1, files=("rxsci/math/sum.py", "rxsci/math/mean.py", "rxsci/math/min.py", "rxsci/math/max.py",
+        "C12": [ms.ms_for_types("int", "float", "bool", "obj"), scan.rule_sd1, num.rule_nm1, ag.rule_ag4, named(scan.rule_pu1, files=("rxsci/math/sum.py", "rxsci/math/mean.py", "rxsci/math/min.py", "rxsci/math/max.py",
                                                           "rxsci/math/variance.py", "rxsci/math/stddev.py", "rxsci/math/formal/variance.py",
                                                           "rxsci/math/formal/stddev.py", "rxsci/math/formal/__init__.py"))],
         "C13": er.RULES + [mx.rule_wc2, st.rule_st8, mx.rule_ev1],
@@ -53,10 +53,10 @@ def rules_for(prop):
         "C18": [cont.rule_csv_tables, cont.rule_csv_merge, cont.rule_csv_classify, cont.rule_csv_file_modes, cont.rule_dp7, io.rule_fr3, io.rule_fh1_file, io.rule_fr1] + per_subscription("rxsci/container/csv.py", "rxsci/framing/line.py", *FILEIO),
         "C19": [cont.rule_ag7, io.rule_framing, io.rule_codec, io.rule_compression, io.rule_fr3, io.rule_fh1_file] + per_subscription("rxsci/container/json.py", *(FRAMING + COMPRESSION + CODEC + FILEIO)),
         "C20": [cont.rule_pu2, seq.rule_dp6, io.rule_fh1_parquet, scan.rule_sd1, scan.rule_sc1] + per_subscription("rxsci/container/parquet.py", "rxsci/data/batch.py", "rxsci/operators/scan.py"),
-        "C06": [named(grp.rule_eq1, files=("rxsci/data/split.py",), min_instances=1), named(grp.rule_fw1, heads=("split",)), grp.rule_dp4,
-                named(lv.rule_lv, only=("split_mux._split.on_subscribe",)), ms.rule_ms_states],
-        "C07": [grp.rule_time_split, seq.rule_opt1_time_split, named(grp.rule_fw1, heads=("time_split",)),
-                named(lv.rule_lv, only=("time_split_mux._time_split.on_subscribe",)), ms.rule_ms_states],
+        "C06": [named(grp.rule_fwd1, heads=("split",)), named(grp.rule_eq1, files=("rxsci/data/split.py",), min_instances=1), named(grp.rule_fw1, heads=("split",)), grp.rule_dp4,
+                named(lv.rule_lv, only=("split_mux._split.on_subscribe",)), ms.ms_for_types("obj"), mx.rule_mx6],
+        "C07": [named(grp.rule_fwd1, heads=("time_split",)), grp.rule_time_split, seq.rule_opt1_time_split, named(grp.rule_fw1, heads=("time_split",)),
+                named(lv.rule_lv, only=("time_split_mux._time_split.on_subscribe",)), ms.ms_for_types("obj")],
     }
     return table.get(prop)
 
